@@ -52,9 +52,15 @@ def str_lit(s):
     return _str_lits[s]
 
 
+_str_ax = [0, []]
+
+
 def str_axioms():
-    vs = list(_str_lits.values())
-    return [z3.Distinct(*vs)] if len(vs) > 1 else []
+    if _str_ax[0] != len(_str_lits):
+        vs = list(_str_lits.values())
+        _str_ax[1] = [z3.Distinct(*vs)] if len(vs) > 1 else []
+        _str_ax[0] = len(_str_lits)
+    return _str_ax[1]
 
 
 class StructV:
